@@ -77,6 +77,60 @@ def make_dumper(repo):
     return dump
 
 
+def grammar_rules(text):
+    """a Lark grammar text -> {rule name: (prefix, [alternative as list of items])}; items are rule/terminal names,
+    quoted literals (kept with their quotes), regular expressions or punctuation of the EBNF; aliases are dropped"""
+    rules = {}
+    cur = None
+    for raw in text.splitlines():
+        st = raw.strip()
+        if not st or st.startswith('//'):
+            continue
+        if st.startswith('%'):
+            cur = None
+            continue
+        m = re.match(r'^([?!]?)([A-Za-z_][A-Za-z_0-9]*)\s*:\s*(.*)$', st)
+        if m:
+            cur = m.group(2)
+            rules[cur] = (m.group(1), [])
+            body = m.group(3)
+        elif st.startswith('|') and cur is not None:
+            body = st[1:]
+        else:
+            raise SystemExit('translate: cannot read grammar line %r' % raw)
+        for alt in split_alternatives(body):
+            alt = re.sub(r'->\s*\w+\s*$', '', alt).strip()
+            if alt:
+                items = re.findall(r'"(?:[^"\\]|\\.)*"|/(?:[^/\\]|\\.)+/|[A-Za-z_][A-Za-z_0-9]*|[()\[\]|*+?]', alt)
+                if ''.join(items) != re.sub(r'\s+', '', alt):
+                    raise SystemExit('translate: cannot split grammar alternative %r' % alt)
+                rules[cur][1].append(items)
+    return rules
+
+
+def split_alternatives(body):
+    """split at top-level | (not inside parentheses, brackets or quotes)"""
+    out, depth, cur, q = [], 0, '', False
+    for ch in body:
+        if ch == '"':
+            q = not q
+        if not q and ch in '([':
+            depth += 1
+        if not q and ch in ')]':
+            depth -= 1
+        if ch == '|' and depth == 0 and not q:
+            out.append(cur)
+            cur = ''
+        else:
+            cur += ch
+    out.append(cur)
+    return out
+
+
+WAWK_EXPR_RULES = ['expr', 'or_s', 'a_or_s', 'and_s', 'a_and_s', 'comp', 'a_comp', 'sum_s', 'a_sum_s', 'mul', 'a_mul', 'neg', 'a_neg',
+                   'u_op', 'm_d_op', 'a_s_op', 'comp_op', 'and_op', 'or_op', 'base_symbol', 'fcall', 'string']
+
+
 def main():
     repo, out = sys.argv[1], sys.argv[2]
     dump = make_dumper(repo)
@@ -100,6 +154,28 @@ def main():
     for name, rel in (('std_forms', 'wal/libs/std/std.wal'), ('module_forms', 'wal/libs/std/module.wal')):
         fs = forms(rel)
         parts.append(f'Definition {name} : list val :=\n  [' + ';\n   '.join(dump(f) for f in fs) + '].\n')
+    from wawk.parser import WAWK_GRAMMAR
+    rules = grammar_rules(WAWK_GRAMMAR)
+    rows = []
+    for name in WAWK_EXPR_RULES:
+        if name not in rules:
+            raise SystemExit('translate: the WAWK grammar has no rule %s' % name)
+        prefix, alts = rules[name]
+        rows.append('(%s, %s, [%s])' % (coq_string(name), coq_string(prefix),
+                                        '; '.join('[' + '; '.join(coq_string(it) for it in alt) + ']' for alt in alts)))
+    parts.append('(* the expression rules of wawk/parser.py WAWK_GRAMMAR: name, prefix (? inline, ! keep tokens), alternatives *)\n'
+                 'Definition wawk_expression_rules : list (string * string * list (list string)) :=\n  [' + ';\n   '.join(rows) + '].\n')
+    atom = rules.get('atom')
+    if atom is None:
+        raise SystemExit('translate: the WAWK grammar has no rule atom')
+    parts.append('Definition wawk_atom_alternatives : list (list string) :=\n  [' +
+                 '; '.join('[' + '; '.join(coq_string(it) for it in alt) + ']' for alt in atom[1]) + '].\n')
+    ignores = re.findall(r'^\s*%ignore\s+(\w+)', WAWK_GRAMMAR, flags=re.M)
+    m = re.search(r'^\s*COMMENT\s*:\s*(\S.*?)\s*$', WAWK_GRAMMAR, flags=re.M)
+    if not m:
+        raise SystemExit('translate: the WAWK grammar has no COMMENT terminal')
+    parts.append('Definition wawk_ignored : list string := [' + '; '.join(coq_string(x) for x in ignores) + '].\n')
+    parts.append('Definition wawk_comment_terminal : string := ' + coq_string(m.group(1)) + '.\n')
     text = '\n'.join(parts)
     old = None
     if os.path.exists(out):
